@@ -13,7 +13,7 @@ CHECK = {
     "technique": "exhaustive small-domain enumeration + property-based testing (rapid) with a max(A∩B) reference; end-to-end differential transfer check between two real instances",
     "runs": [
         {"name": "neg", "run": "^TestC19_(Negotiate|NegotiateExhaustive|PeerVersion)$", "checks": {"quick": 1500, "thorough": 20000}, "shards": {"quick": 1, "thorough": 8}},
-        {"name": "xfer", "run": "^TestC19_Transfer$", "checks": {"quick": 60, "thorough": 400}, "shards": {"quick": 2, "thorough": 16}},
+        {"name": "xfer", "run": "^TestC19_Transfer$", "checks": {"quick": 60, "thorough": 70}, "shards": {"quick": 2, "thorough": 16}, "rounds": {"quick": 1, "thorough": 3}},
     ],
     "rule": "negotiation: every ordered pair of non-empty subsets of {0,1,2} (exhaustive, 49 pairs) and rapid-drawn subsets of 0..255; peer lookup: rapid-drawn "
             "(local set, peer ENR kind, peer set, number of calls); transfers: rapid-drawn (set A, set B, offered item sizes, FINDCONTENT size > inline threshold). "
